@@ -50,6 +50,15 @@ fn any_cli() -> Cli {
     }
 }
 
+/// a test case that is either the empty string or "a" (the empty string is a legitimate test case)
+fn any_case() -> String {
+    if kani::any() {
+        String::new()
+    } else {
+        String::from("a")
+    }
+}
+
 fn bit(bits: u32, k: u32) -> bool {
     bits & (1 << k) != 0
 }
@@ -83,9 +92,13 @@ fn assert_mapping(cli: &Cli) {
 #[kani::stub(std::io::_print, stub_print)]
 fn h12m_flag_mapping() {
     let cli = any_cli();
-    let r = handle_input(&cli, Ok(vec![String::from("a")]));
+    let case = any_case();
+    let empty = case.is_empty();
+    let r = handle_input(&cli, Ok(vec![case]));
     assert!(r.is_ok());
     assert_mapping(&cli);
+    kani::cover!(empty);
+    kani::cover!(!empty);
     kani::cover!(cli.are_anchors_disabled && !cli.is_caret_anchor_disabled);
     kani::cover!(cli.is_astral_code_point_converted_to_surrogate && !cli.is_non_ascii_char_escaped);
     kani::cover!(cli.minimum_repetitions == u32::MAX);
@@ -97,9 +110,13 @@ fn h12m_flag_mapping() {
 #[kani::stub(std::io::_print, stub_print)]
 fn h12p2_two_test_cases() {
     let cli = any_cli();
-    let r = handle_input(&cli, Ok(vec![String::from("a"), String::from("b")]));
+    let (c1, c2) = (any_case(), any_case());
+    let both_empty = c1.is_empty() && c2.is_empty();
+    let r = handle_input(&cli, Ok(vec![c1, c2]));
     assert!(r.is_ok());
     assert_mapping(&cli);
+    kani::cover!(both_empty);
+    kani::cover!(!both_empty);
 }
 
 #[kani::proof]
